@@ -87,9 +87,13 @@ let () =
                    | None -> [])
               | _ -> []) in
           let flaky = failing <> [] in
-          let ops = if String.trim opss = "" || String.trim opss = "-" then [] else List.map op_of_string (String.split_on_char ';' (String.trim opss)) in
+          (* "X" (Resolve + Reset of the wrapped collector by the caller) is not an operation of the event collector's
+             model: the running totals, ids and the sampling cadence go on as if nothing had happened, and what was
+             taken out is part of the decoded stream *)
+          let ops = if String.trim opss = "" || String.trim opss = "-" then []
+            else List.map op_of_string (List.filter (fun t -> t <> "X") (String.split_on_char ';' (String.trim opss))) in
           let i_added = perfs_of_string addeds in
-          let errs = if String.trim errs = "-" then "" else String.trim errs in
+          let errs = if String.trim errs = "-" then "" else String.concat "" (String.split_on_char 'x' (String.trim errs)) in
           let (decerr, decstr) = (match String.index_opt (String.trim decs) ' ' with
               | Some i -> let d = String.trim decs in (String.sub d 0 i, String.sub d (i + 1) (String.length d - i - 1))
               | None -> (String.trim decs, "")) in
